@@ -16,14 +16,13 @@
 //!   producers (`wake_begin`/`wake_finish`) reproduce cordyceps' `Empty` /
 //!   `Inconsistent` answers (tail==stub with unlinked successor -> Empty,
 //!   linked front whose successor is unlinked -> Inconsistent);
-//! * reference count shared by the list handle and every cloned child waker.
+//! * reference count shared by the list handle and every cloned child waker;
+//!   the block is released exactly once, by the last owner.
 //!
 //! No `kani` calls in here; environment events enter through
 //! `crate::verif::sched_point`.
-#![allow(dead_code)]
+#![allow(dead_code, static_mut_refs)]
 
-use alloc::boxed::Box;
-use core::cell::{Cell, UnsafeCell};
 use core::mem::ManuallyDrop;
 use core::task::{RawWaker, RawWakerVTable, Waker};
 
@@ -31,34 +30,65 @@ use core::task::{RawWaker, RawWakerVTable, Waker};
 pub(crate) const NIL: usize = usize::MAX;
 /// queue entries the packed FIFO can hold (model limit, asserted)
 pub(crate) const QMAX: usize = 8;
+/// lists that can exist in one run (model limit, asserted)
+pub(crate) const MAXL: usize = 4;
+/// slots per list (model limit, asserted)
+pub(crate) const MAXSLOT: usize = 64;
 
-/// One per slot; immutable after construction. Its address is the data
-/// pointer of the slot's waker (as in the real list).
-pub(crate) struct Item {
-    pub(crate) index: usize,
-    owner: Cell<*const Inner>,
-}
-
-/// All mutable state is scalar (bit masks / a packed FIFO) so that symbolic
-/// slot indices cost shifts, not array updates, in the solver.
-pub(crate) struct Inner {
-    pub(crate) strong: Cell<usize>,
-    pub(crate) task: UnsafeCell<Option<Waker>>,
-    pub(crate) registered: Cell<bool>,
+/// All state is scalar and lives in a static table indexed by a *concrete*
+/// list id: no heap object, no symbolic offsets -- a symbolic slot index costs
+/// shifts, not byte-array updates, in the solver.
+pub(crate) struct St {
+    /// owners: the list handle + every cloned child waker
+    pub(crate) strong: usize,
+    pub(crate) live: bool,
+    pub(crate) task: Option<Waker>,
+    pub(crate) registered: bool,
     /// bit i: the `wake_lock` flag of slot i (queued, or its enqueue in flight)
-    pub(crate) flags: Cell<u64>,
+    pub(crate) flags: u64,
     /// FIFO of slot indices, 8 bits each, oldest in the low byte
-    pub(crate) q: Cell<u64>,
-    pub(crate) qlen: Cell<usize>,
+    pub(crate) q: u64,
+    pub(crate) qlen: usize,
     /// bit k: the k-th queue entry is in flight (enqueue begun by another
     /// producer, predecessor link not yet written)
-    pub(crate) inflight: Cell<u8>,
-    pub(crate) items: Box<[Item]>,
+    pub(crate) inflight: u8,
     pub(crate) cap: usize,
 }
 
+const ST0: St = St {
+    strong: 0,
+    live: false,
+    task: None,
+    registered: false,
+    flags: 0,
+    q: 0,
+    qlen: 0,
+    inflight: 0,
+    cap: 0,
+};
+static mut LISTS: [St; MAXL] = [ST0, ST0, ST0, ST0];
+static mut NEXT_ID: usize = 0;
+/// `&TAGS[i]` is the data pointer of the waker of slot i (of any list; the
+/// list is identified by the vtable)
+static TAGS: [u8; MAXSLOT] = [0; MAXSLOT];
+
+pub(crate) fn st(id: usize) -> &'static mut St {
+    unsafe { &mut LISTS[id] }
+}
+
+pub(crate) fn model_reset() {
+    unsafe {
+        let mut i = 0;
+        while i < MAXL {
+            LISTS[i] = ST0;
+            i += 1;
+        }
+        NEXT_ID = 0;
+    }
+}
+
 pub(crate) struct WakerList {
-    pub(crate) ptr: *const Inner,
+    pub(crate) id: usize,
 }
 
 unsafe impl Send for WakerList {}
@@ -70,22 +100,23 @@ pub(crate) enum ReadySlot<T> {
     None,
 }
 
-impl Inner {
+impl St {
     pub(crate) fn flag(&self, i: usize) -> bool {
-        (self.flags.get() >> i) & 1 == 1
+        (self.flags >> i) & 1 == 1
     }
     pub(crate) fn q_at(&self, k: usize) -> usize {
-        ((self.q.get() >> (8 * k)) & 0xff) as usize
+        ((self.q >> (8 * k)) & 0xff) as usize
     }
     pub(crate) fn inflight_at(&self, k: usize) -> bool {
-        (self.inflight.get() >> k) & 1 == 1
+        (self.inflight >> k) & 1 == 1
     }
     /// queue position of slot i (QMAX if absent)
     pub(crate) fn pos_of(&self, i: usize) -> usize {
         let mut r = QMAX;
         let mut k = 0;
-        while k < QMAX {
-            if k < self.qlen.get() && self.q_at(k) == i && r == QMAX {
+        // entries are distinct slots, so qlen <= cap: concrete loop bound
+        while k < self.cap && k < QMAX {
+            if k < self.qlen && self.q_at(k) == i && r == QMAX {
                 r = k;
             }
             k += 1;
@@ -93,28 +124,27 @@ impl Inner {
         r
     }
     pub(crate) fn slot_inflight(&self, i: usize) -> bool {
-        if self.inflight.get() == 0 {
+        if self.inflight == 0 {
             return false;
         }
         let p = self.pos_of(i);
         p < QMAX && self.inflight_at(p)
     }
 
-    fn enqueue(&self, i: usize, inflight: bool) {
-        let n = self.qlen.get();
-        assert!(n < QMAX && i < 64, "waker_model: queue/slot limit of the model exceeded");
-        self.q.set(self.q.get() | ((i as u64) << (8 * n)));
+    fn enqueue(&mut self, i: usize, inflight: bool) {
+        let n = self.qlen;
+        assert!(n < QMAX && i < MAXSLOT, "waker_model: queue/slot limit of the model exceeded");
+        self.q |= (i as u64) << (8 * n);
         if inflight {
-            self.inflight.set(self.inflight.get() | (1u8 << n));
+            self.inflight |= 1u8 << n;
         }
-        self.qlen.set(n + 1);
+        self.qlen = n + 1;
     }
 
-    fn notify(&self) {
-        if self.registered.get() {
-            self.registered.set(false);
-            // SAFETY: single-threaded model
-            if let Some(w) = unsafe { &*self.task.get() } {
+    fn notify(&mut self) {
+        if self.registered {
+            self.registered = false;
+            if let Some(w) = &self.task {
                 w.wake_by_ref();
             }
         }
@@ -122,7 +152,7 @@ impl Inner {
 
     /// first half of a child wake performed by "another thread":
     /// flag set + enqueue started. Returns true if this call began an enqueue.
-    pub(crate) fn wake_begin(&self, i: usize) -> bool {
+    pub(crate) fn wake_begin(&mut self, i: usize) -> bool {
         if self.slot_inflight(i) {
             // the slot lock is held by the producer in flight: we would spin
             // until it finishes, then see the flag set.
@@ -132,28 +162,28 @@ impl Inner {
         if self.flag(i) {
             return false;
         }
-        self.flags.set(self.flags.get() | (1u64 << i));
+        self.flags |= 1u64 << i;
         self.enqueue(i, true);
         true
     }
 
     /// second half: link becomes visible, task notified, slot lock released.
-    pub(crate) fn wake_finish(&self, i: usize) {
-        if self.inflight.get() == 0 {
+    pub(crate) fn wake_finish(&mut self, i: usize) {
+        if self.inflight == 0 {
             return;
         }
         let p = self.pos_of(i);
         if p < QMAX && self.inflight_at(p) {
-            self.inflight.set(self.inflight.get() & !(1u8 << p));
+            self.inflight &= !(1u8 << p);
             self.notify();
         }
     }
 
-    pub(crate) fn wake_by_ref(&self, i: usize) {
-        if self.inflight.get() == 0 {
+    pub(crate) fn wake_by_ref(&mut self, i: usize) {
+        if self.inflight == 0 {
             // fast path (nothing in flight): flag, enqueue, notify
             if !self.flag(i) {
-                self.flags.set(self.flags.get() | (1u64 << i));
+                self.flags |= 1u64 << i;
                 self.enqueue(i, false);
                 self.notify();
             }
@@ -163,135 +193,155 @@ impl Inner {
             self.wake_finish(i);
         }
     }
-
-    fn inc_strong(&self) {
-        self.strong.set(self.strong.get() + 1);
-    }
-
-    /// returns true if this was the last owner
-    fn dec_strong(&self) -> bool {
-        let s = self.strong.get();
-        self.strong.set(s - 1);
-        s == 1
-    }
 }
 
-unsafe fn release(p: *const Inner) {
-    crate::verif::probe_release(p as usize);
-    drop(unsafe { Box::from_raw(p as *mut Inner) });
+/// the last owner is gone: release the "block"
+fn release(id: usize) {
+    let s = st(id);
+    assert!(s.live, "waker_model: block released twice");
+    s.live = false;
+    crate::verif::probe_release(id);
+    // dropping the header drops the stored task waker
+    s.task = None;
 }
 
-static VTABLE: RawWakerVTable =
-    RawWakerVTable::new(child_clone, child_wake, child_wake_by_ref, child_drop);
-
-pub(crate) fn child_vtable() -> &'static RawWakerVTable {
-    &VTABLE
+fn inc_strong(id: usize) {
+    st(id).strong += 1;
 }
 
-unsafe fn owner<'a>(data: *const ()) -> (&'a Inner, usize) {
-    let it = unsafe { &*data.cast::<Item>() };
-    (unsafe { &*it.owner.get() }, it.index)
-}
-
-pub(crate) unsafe fn child_clone(data: *const ()) -> RawWaker {
-    let (inner, _) = unsafe { owner(data) };
-    inner.inc_strong();
-    RawWaker::new(data, &VTABLE)
-}
-
-pub(crate) unsafe fn child_wake(data: *const ()) {
-    unsafe {
-        child_wake_by_ref(data);
-        child_drop(data);
+fn dec_strong(id: usize) {
+    let s = st(id);
+    s.strong -= 1;
+    if s.strong == 0 {
+        release(id);
     }
 }
 
-pub(crate) unsafe fn child_wake_by_ref(data: *const ()) {
-    let (inner, i) = unsafe { owner(data) };
-    inner.wake_by_ref(i);
+fn slot_of(data: *const ()) -> usize {
+    // pointer difference inside the TAGS object: no memory access
+    unsafe { data.cast::<u8>().offset_from(TAGS.as_ptr()) as usize }
 }
 
-pub(crate) unsafe fn child_wake_begin(data: *const ()) -> bool {
-    let (inner, i) = unsafe { owner(data) };
-    inner.wake_begin(i)
+// One vtable per list id: the (concrete) vtable address identifies the list,
+// the data pointer only carries the slot.
+unsafe fn vt_clone<const L: usize>(data: *const ()) -> RawWaker {
+    child_clone(L, data)
 }
-
-pub(crate) unsafe fn child_wake_finish(data: *const ()) {
-    let (inner, i) = unsafe { owner(data) };
-    inner.wake_finish(i)
+unsafe fn vt_wake<const L: usize>(data: *const ()) {
+    child_wake(L, data)
 }
+unsafe fn vt_wake_by_ref<const L: usize>(data: *const ()) {
+    child_wake_by_ref(L, data)
+}
+unsafe fn vt_drop<const L: usize>(data: *const ()) {
+    child_drop(L, data)
+}
+static VT0: RawWakerVTable = RawWakerVTable::new(vt_clone::<0>, vt_wake::<0>, vt_wake_by_ref::<0>, vt_drop::<0>);
+static VT1: RawWakerVTable = RawWakerVTable::new(vt_clone::<1>, vt_wake::<1>, vt_wake_by_ref::<1>, vt_drop::<1>);
+static VT2: RawWakerVTable = RawWakerVTable::new(vt_clone::<2>, vt_wake::<2>, vt_wake_by_ref::<2>, vt_drop::<2>);
+static VT3: RawWakerVTable = RawWakerVTable::new(vt_clone::<3>, vt_wake::<3>, vt_wake_by_ref::<3>, vt_drop::<3>);
 
-pub(crate) unsafe fn child_drop(data: *const ()) {
-    let (inner, _) = unsafe { owner(data) };
-    if inner.dec_strong() {
-        unsafe { release(inner as *const Inner) };
+pub(crate) fn vtable(id: usize) -> &'static RawWakerVTable {
+    match id {
+        0 => &VT0,
+        1 => &VT1,
+        2 => &VT2,
+        _ => &VT3,
     }
+}
+
+/// which list a child waker belongs to (None: not a model child waker)
+pub(crate) fn list_of(w: &Waker) -> Option<usize> {
+    let v = w.vtable();
+    if core::ptr::eq(v, &VT0) {
+        Some(0)
+    } else if core::ptr::eq(v, &VT1) {
+        Some(1)
+    } else if core::ptr::eq(v, &VT2) {
+        Some(2)
+    } else if core::ptr::eq(v, &VT3) {
+        Some(3)
+    } else {
+        None
+    }
+}
+
+pub(crate) fn child_clone(l: usize, data: *const ()) -> RawWaker {
+    inc_strong(l);
+    RawWaker::new(data, vtable(l))
+}
+
+pub(crate) fn child_wake(l: usize, data: *const ()) {
+    child_wake_by_ref(l, data);
+    child_drop(l, data);
+}
+
+pub(crate) fn child_wake_by_ref(l: usize, data: *const ()) {
+    st(l).wake_by_ref(slot_of(data));
+}
+
+pub(crate) fn child_wake_begin(l: usize, data: *const ()) -> bool {
+    st(l).wake_begin(slot_of(data))
+}
+
+pub(crate) fn child_wake_finish(l: usize, data: *const ()) {
+    st(l).wake_finish(slot_of(data))
+}
+
+pub(crate) fn child_drop(l: usize, _data: *const ()) {
+    dec_strong(l);
 }
 
 impl WakerList {
     pub(crate) fn new(cap: usize) -> Self {
-        let mut items = alloc::vec::Vec::with_capacity(cap);
-        for i in 0..cap {
-            items.push(Item {
-                index: i,
-                owner: Cell::new(core::ptr::null()),
-            });
-        }
-        let inner = Box::new(Inner {
-            strong: Cell::new(1),
-            task: UnsafeCell::new(None),
-            registered: Cell::new(false),
-            flags: Cell::new(0),
-            q: Cell::new(0),
-            qlen: Cell::new(0),
-            inflight: Cell::new(0),
-            items: items.into_boxed_slice(),
-            cap,
-        });
-        let ptr: *const Inner = Box::into_raw(inner);
-        let inner = unsafe { &*ptr };
-        for i in 0..cap {
-            inner.items[i].owner.set(ptr);
-        }
-        crate::verif::probe_alloc(ptr as usize);
-        Self { ptr }
+        let id = unsafe {
+            let id = NEXT_ID;
+            NEXT_ID += 1;
+            id
+        };
+        assert!(id < MAXL && cap <= MAXSLOT, "waker_model: list/slot limit of the model exceeded");
+        let s = st(id);
+        *s = ST0;
+        s.strong = 1;
+        s.live = true;
+        s.cap = cap;
+        crate::verif::probe_alloc(id);
+        Self { id }
     }
 
-    pub(crate) fn inner(&self) -> &Inner {
-        unsafe { &*self.ptr }
+    pub(crate) fn st(&self) -> &'static mut St {
+        st(self.id)
     }
 
     /// Safety: index must be within capacity
     pub(crate) unsafe fn push(&self, index: usize) {
-        let inner = self.inner();
-        if inner.slot_inflight(index) {
+        let s = self.st();
+        if s.slot_inflight(index) {
             // spin on the slot lock until the producer in flight is done
-            inner.wake_finish(index);
+            s.wake_finish(index);
         }
-        if !inner.flag(index) {
-            inner.flags.set(inner.flags.get() | (1u64 << index));
-            inner.enqueue(index, false);
+        if !s.flag(index) {
+            s.flags |= 1u64 << index;
+            s.enqueue(index, false);
         }
     }
 
     pub(crate) fn register(&mut self, waker: &Waker) {
         crate::verif::sched_point(0);
-        let inner = self.inner();
-        // SAFETY: single-threaded model, &mut self
-        let task = unsafe { &mut *inner.task.get() };
-        let up_to_date = match task {
+        let s = self.st();
+        let up_to_date = match &s.task {
             Some(t) => t.will_wake(waker),
             None => false,
         };
         if !up_to_date {
-            *task = Some(waker.clone());
+            s.task = Some(waker.clone());
         }
-        inner.registered.set(true);
+        s.registered = true;
     }
 
     pub(crate) fn get(&self, index: usize) -> ManuallyDrop<Waker> {
-        let it: *const Item = &self.inner().items[index];
-        unsafe { ManuallyDrop::new(Waker::from_raw(RawWaker::new(it.cast(), &VTABLE))) }
+        let p: *const u8 = unsafe { TAGS.as_ptr().add(index) };
+        unsafe { ManuallyDrop::new(Waker::from_raw(RawWaker::new(p.cast(), vtable(self.id)))) }
     }
 
     pub(crate) fn verif_get(&self, index: usize) -> ManuallyDrop<Waker> {
@@ -300,9 +350,9 @@ impl WakerList {
 
     pub(crate) unsafe fn pop(&self) -> ReadySlot<(usize, ManuallyDrop<Waker>)> {
         crate::verif::sched_point(1);
-        let inner = self.inner();
-        let n = inner.qlen.get();
-        let fl = inner.inflight.get();
+        let s = self.st();
+        let n = s.qlen;
+        let fl = s.inflight;
         let r = if n == 0 {
             ReadySlot::None
         } else if fl & 1 != 0 {
@@ -312,12 +362,12 @@ impl WakerList {
             // front is linked, its successor's link is not yet written
             ReadySlot::Inconsistent
         } else {
-            let e0 = inner.q_at(0);
-            inner.q.set(inner.q.get() >> 8);
-            inner.inflight.set(fl >> 1);
-            inner.qlen.set(n - 1);
+            let e0 = s.q_at(0);
+            s.q >>= 8;
+            s.inflight = fl >> 1;
+            s.qlen = n - 1;
             // flag cleared only after the slot left the queue
-            inner.flags.set(inner.flags.get() & !(1u64 << e0));
+            s.flags &= !(1u64 << e0);
             ReadySlot::Ready((e0, self.get(e0)))
         };
         crate::verif::sched_point(2);
@@ -327,8 +377,6 @@ impl WakerList {
 
 impl Drop for WakerList {
     fn drop(&mut self) {
-        if self.inner().dec_strong() {
-            unsafe { release(self.ptr) };
-        }
+        dec_strong(self.id);
     }
 }
